@@ -555,7 +555,30 @@ def r08c(P, R):
             if c.get("k") == "Call" and call_name(c) == setter:
                 pv = pv or Prov(f)
                 n += 1
-                ok = has_call(pv.atoms(c["args"][0]), "FileStore::add_file")
+                a0 = pv.atoms(c["args"][0])
+                ok = has_call(a0, "FileStore::add_file")
+                if not ok:
+                    # the index arrives through a parameter of a helper: look one level up, at what the callers pass
+                    pnames = [pv.params.get(b.get("local")) if b.get("k") == "Binding" else None for b in f.params]
+                    via = [i for i, nm in enumerate(pnames) if nm is not None and ("param", nm) in a0]
+                    callers = [(g, x) for g in P.fns.values() if not g.derived and "::tests" not in g.path for x in g.walk()
+                               if x.get("k") in ("Call", "MethodCall") and call_name(x) == f.path]
+                    if via and callers:
+                        verdicts = []
+                        for g, x in callers:
+                            args = ([x["recv"]] if x.get("k") == "MethodCall" else []) + x["args"]
+                            gp = Prov(g)
+                            verdicts.append(all(i < len(args) and has_call(gp.atoms(args[i]), "FileStore::add_file") for i in via))
+                        if all(verdicts):
+                            ok = True
+                        elif not any(verdicts):
+                            ok = False
+                        else:
+                            R.undecided("R08-c", "file-index-source:%s#%d" % (short(f.path), n), "the file index arrives through a parameter; callers disagree", loc=f.loc())
+                            continue
+                    elif via:
+                        R.undecided("R08-c", "file-index-source:%s#%d" % (short(f.path), n), "the file index arrives through a parameter and no caller was found", loc=f.loc())
+                        continue
                 R.check("R08-c", "file-index-source:%s#%d" % (short(f.path), n), ok, "current file index = add_file(..)'s return value",
                         "%s sets a current file index that does not come from FileStore::add_file: positions may index outside the file store "
                         "(print_positioned_error and the JSON renderers index it)" % f.path, loc=f.loc())
